@@ -18,6 +18,16 @@ import (
 
 const verifDir = "/verif"
 
+// outDir: where evidence, replay files and scratch queries go; GOVC_OUT redirects them (used
+// when a check is run against a scratch copy of the repository, e.g. for seeded changes, so
+// that the evidence of the real tree is not overwritten)
+func outDir() string {
+	if d := os.Getenv("GOVC_OUT"); d != "" {
+		return d
+	}
+	return verifDir
+}
+
 func main() {
 	if len(os.Args) < 2 {
 		fmt.Fprintln(os.Stderr, "usage: govc check -p <id> [-tier quick|thorough] | govc dump <func> | govc replay <file>")
@@ -88,7 +98,7 @@ func cmdCheck(args []string) int {
 	t0 := time.Now()
 	id := *prop
 	curProp = id
-	evPath := filepath.Join(verifDir, "evidence", id+".json")
+	evPath := filepath.Join(outDir(), "evidence", id+".json")
 	undecided := func(reason string) int {
 		fmt.Printf("UNDECIDED property=%s reason=%s\n", id, reason)
 		return 2
@@ -304,7 +314,7 @@ func cmdCheck(args []string) int {
 		f := knownHit[k]
 		fmt.Printf("KNOWN-FINDING: property=%s %s [%s]\n", id, f.What, f.Obligation)
 	}
-	os.MkdirAll(filepath.Join(verifDir, "replays", id), 0755)
+	os.MkdirAll(filepath.Join(outDir(), "replays", id), 0755)
 	nviol := 0
 	seenViol := map[string]bool{}
 	for _, j := range still {
